@@ -1922,7 +1922,7 @@ struct Exec {
                 "get / * / -> of a virtual_ptr do not give back the original "
                 "object",
                 d);
-        if (vi.vptr != sn.static_vptr[h.cls] || vi.vptr == 0) {
+        if (vi.vptr != sn.static_vptr[h.cls]) {
             d.set("vptr_null", vi.vptr == 0);
             return violate(
                 "C09", "virtual_ptr", fresh ? "wrong-vptr" : "stale-vptr",
